@@ -16,6 +16,8 @@ def build_cases(ctx, reg):
     cases += iosuite.maps_family(g)
     cases += iosuite.times_family(g)
     cases += iosuite.probe_family(g)
+    cases += iosuite.slices2d_family(g)
+    cases += iosuite.sequences_family(g, 40 if quick else 600)
     cases += iosuite.graphs_family(g, 6 if quick else 60)
     cases += iosuite.registered(g, reg, 15 if quick else 200)
     return cases
